@@ -177,8 +177,15 @@ def one_compile(src, name, opts, entry, workdir, fault_at=None, count_calls=Fals
                         res["rc"] = 0
                         data = open(p, "rb").read()
                     else:
-                        data = bytes(vela.convert_bytes(bytearray(src)))
-                        res["rc"] = 0
+                        # the client's own buffer when it hands one in (a bytearray kept across the steps of a history): it must come
+                        # back unchanged
+                        buf = src if isinstance(src, bytearray) else bytearray(src)
+                        before = bytes(buf)
+                        try:
+                            data = bytes(vela.convert_bytes(buf))
+                            res["rc"] = 0
+                        finally:
+                            res["src_modified"] = bytes(buf) != before
                 finally:
                     sys.settrace(None)
             except InjectedFault as e:
@@ -456,6 +463,7 @@ class C14(check.Check):
         out = dict(viol=[], counters={}, key=seeds.digest(desc["steps"]) + seeds.digest(desc["pool"]), nontrivial=False, evaluations=0)
         pool = desc["pool"]
         srcs = [netgen.build_bytes(rec) for rec in pool]
+        client_bufs = [bytearray(s_) for s_ in srcs]  # what a client of convert_bytes() holds on to between calls
         wd = tempfile.mkdtemp(prefix="verif-h-")
         try:
             # single-copy reference: every distinct compilation alone, in a fresh fork of this pristine process
@@ -516,8 +524,10 @@ class C14(check.Check):
                         d_[mod] = d_.get(mod, 0) + 1
                     trail.append("fault@" + (r_.get("site") or "-"))
                     continue
-                r_ = one_compile(srcs[s_["m"]], "net", OPTION_POOL[s_["o"]], s_["e"], os.path.join(wd, "s%d" % si))
+                r_ = one_compile(client_bufs[s_["m"]] if s_["e"] == "convert_bytes" else srcs[s_["m"]], "net", OPTION_POOL[s_["o"]], s_["e"], os.path.join(wd, "s%d" % si))
                 out["evaluations"] += 1
+                if r_.get("src_modified"):
+                    out["viol"].append(dict(prop="C14", oracle="input_model_modified", step=si, entry=s_["e"], sig=dict(oracle="input_model_modified")))
                 prev = trail[-1].split("@")[0] if trail else "start"
                 if (r_["rc"], r_["exc_type"]) != (g["rc"], g["exc_type"]):
                     out["viol"].append(dict(prop="C14", oracle="history_changes_outcome", step=si, entry=s_["e"], after=trail[-3:], got=dict(rc=r_["rc"], exc=r_["exc_type"], site=r_.get("site"), msg=r_.get("msg")),
